@@ -68,7 +68,7 @@ def conv_ch(p):
     return dict(lbest=c["lbest"], rbest=c["rbest"], fork=c["fork"], full=c["full"])
 
 
-def edge_cover(trs, rng, max_len=60):
+def edge_cover(trs, rng, max_len=40):
     """Paths from initial states covering every transition.  Returns list of lists of transition indices."""
     out, indeg = {}, {}
     for i, (s, a, d, p) in enumerate(trs):
@@ -99,20 +99,61 @@ def edge_cover(trs, rng, max_len=60):
     covered, paths = set(), []
     order = list(range(len(trs)))
     rng.shuffle(order)
+    # states that still have an uncovered outgoing transition
+    open_cnt = {s: len(v) for s, v in out.items()}
+
+    def cover(j):
+        if j not in covered:
+            covered.add(j)
+            open_cnt[trs[j][0]] -= 1
+
+    def walk_to_open(cur, budget):
+        """shortest walk (through any transitions) from cur to a state with an uncovered outgoing transition"""
+        if budget <= 0:
+            return None
+        seen = {cur: None}
+        dq2 = deque([(cur, 0)])
+        while dq2:
+            s, dist = dq2.popleft()
+            if dist >= budget:
+                continue
+            for j in out.get(s, []):
+                d = trs[j][2]
+                if d in seen or d == s:
+                    continue
+                seen[d] = j
+                if open_cnt.get(d, 0) > 0:
+                    w = []
+                    while seen[d] is not None:
+                        w.append(seen[d])
+                        d = trs[seen[d]][0]
+                    w.reverse()
+                    return w
+                dq2.append((d, dist + 1))
+        return None
+
     for i in order:
         if i in covered or trs[i][0] not in parent:
             continue
         p = path_to(trs[i][0]) + [i]
-        covered.update(p)
+        for j in p:
+            cover(j)
         cur = trs[i][2]
         while len(p) < max_len:
-            nxt = [j for j in out.get(cur, []) if j not in covered and trs[j][2] != cur]
-            if not nxt:
+            nxt = [j for j in out.get(cur, []) if j not in covered]
+            if nxt:
+                j = nxt[rng.randrange(len(nxt))]
+                p.append(j)
+                cover(j)
+                cur = trs[j][2]
+                continue
+            w = walk_to_open(cur, min(6, max_len - len(p)))
+            if not w:
                 break
-            j = nxt[rng.randrange(len(nxt))]
-            p.append(j)
-            covered.add(j)
-            cur = trs[j][2]
+            for j in w:
+                p.append(j)
+                cover(j)
+            cur = trs[w[-1]][2]
         paths.append(p)
     unreachable = [i for i in range(len(trs)) if trs[i][0] not in parent]
     return paths, len(covered), unreachable
@@ -226,10 +267,10 @@ def e2e_scenarios(tier, rng):
     # more than 32 anchors: last anchor > 0; fork below it => honest "no ancestor" and full scan
     lb = rng.randrange(513, 560)
     add(lb, lb + rng.randrange(5, 40), rng.randrange(0, lb - 31 * 16), rate=0.05, mf=5)
-    # ... fork above the last anchor => light scan
-    lb = rng.randrange(513, 560)
-    add(lb, lb + rng.randrange(5, 40), rng.randrange(lb - 31 * 16, lb + 1))
     if tier == "thorough":
+        # ... fork above the last anchor => light scan
+        lb = rng.randrange(513, 560)
+        add(lb, lb + rng.randrange(5, 40), rng.randrange(lb - 31 * 16, lb + 1))
         for lb in (0, 1, 15, 16, 17, 31, 32, 33, 495, 496, 497, 511, 512, 513):      # anchor arithmetic edges
             add(lb, lb + rng.randrange(3, 30), rng.randrange(0, lb + 1), rate=0.05, mf=3, chunk=rng.choice([1, 3, 10]), hashreq=rng.choice([7, 50]))
         for _ in range(6):
@@ -431,7 +472,7 @@ def run(c):
         c.extra["exhaustive_note"] = "exhaustive over the generation instances: " + note + "; simulated behaviours and e2e scenarios are sampled"
         # 3. simulated behaviours of a larger instance (two sessions, 3 peers, <=4 faults)
         if not c.violations:
-            bs2 = simulate(c, "Sim_Syncer.cfg", 750 if thorough else 100, 60, "sim")
+            bs2 = simulate(c, "Sim_Syncer.cfg", 750 if thorough else 60, 60, "sim")
             run_harness(c, cfg_params("Sim_Syncer.cfg"), bs2, "sim")
         # 3b. p2p side: the response receivers
         if not c.violations:
